@@ -40,21 +40,21 @@ pub fn configs(tier: Tier) -> Vec<Box<dyn Config>> {
     // a clone that panics part-way must not leak or double-drop the clones made so far (details: C04)
     v.push(super::c04::mk::<TKey, TVal>(Plan::Zero, if q { 4 } else { 6 }, vec![vec![]], None, tier, false, "-faults"));
     if sse2 {
-        v.push(pairs(Plan::Seq, if q { 4 } else { 5 }, Plan::Seq, if q { 4 } else { 5 }, false, tier));
-        v.push(pairs(Plan::Zero, 4, Plan::Zero, 4, false, tier));
-        v.push(pairs(Plan::Zero, 4, Plan::Mix, 4, true, tier));
+        v.push(pairs(Plan::Seq, if q { 4 } else { 6 }, Plan::Seq, if q { 4 } else { 6 }, false, tier));
+        v.push(pairs(Plan::Zero, if q { 4 } else { 5 }, Plan::Zero, if q { 4 } else { 5 }, false, tier));
+        v.push(pairs(Plan::Zero, if q { 4 } else { 5 }, Plan::Mix, if q { 4 } else { 5 }, true, tier));
     } else {
-        v.push(pairs(Plan::Zero, 4, Plan::Zero, 4, false, tier));
-        v.push(pairs(Plan::Cluster(2), if q { 4 } else { 5 }, Plan::Cluster(2), if q { 4 } else { 5 }, false, tier));
-        v.push(pairs(Plan::Seq, 4, Plan::Max, 4, true, tier));
+        v.push(pairs(Plan::Zero, if q { 4 } else { 5 }, Plan::Zero, if q { 4 } else { 5 }, false, tier));
+        v.push(pairs(Plan::Cluster(2), if q { 4 } else { 6 }, Plan::Cluster(2), if q { 4 } else { 6 }, false, tier));
+        v.push(pairs(Plan::Seq, if q { 4 } else { 5 }, Plan::Max, if q { 4 } else { 5 }, true, tier));
     }
     // clones of tables of zero-sized elements create exactly one new element per stored element
     v.push(Box::new(super::c02::ZstTables { tier }));
     // HashSet::clone / clone_from / == over all ordered pairs of set states, equal and different hasher states
     if sse2 {
-        v.push(super::c07::pairs(Plan::Zero, 3, Plan::Mix, 3, true, tier));
+        v.push(super::c07::pairs(Plan::Zero, if q { 3 } else { 5 }, Plan::Mix, if q { 3 } else { 5 }, true, tier));
     } else {
-        v.push(super::c07::pairs(Plan::Seq, 3, Plan::Max, 3, true, tier));
+        v.push(super::c07::pairs(Plan::Seq, if q { 3 } else { 5 }, Plan::Max, if q { 3 } else { 5 }, true, tier));
     }
     v
 }
